@@ -139,3 +139,33 @@ Proof.
            {| a_uuid := 5; a_name := 31; a_def := {| d_uuid := 5; d_name := 31; d_body := 501 |} |} ], [LFind 31], 5.
   vm_compute. discriminate.
 Qed.
+
+(* ---- C08, hunt2 f1: migration on first load draws from the session's UUID source ---- *)
+
+(* when no definition of the source needs UUIDs to be read, what a session gets does not depend on what is cached *)
+Theorem enter_flow_cache_independent : forall draws src ops u ctr,
+  NoDup (map a_uuid src) ->
+  (forall a, In a src -> draws (a_def a) = 0) ->
+  enter_flow draws src (after src ops) u ctr = enter_flow draws src [] u ctr.
+Proof.
+  intros draws src ops u ctr Hnd H0. unfold enter_flow.
+  pose proof (cache_transparent src ops (LGet u) Hnd) as Ht. simpl in Ht. rewrite Ht.
+  destruct (snd (get src [] u)) as [d|] eqn:Eg. 2: reflexivity.
+  assert (Hd : draws d = 0).
+  { unfold get in Eg. simpl in Eg. destruct (by_uuid src u) as [a|] eqn:Eb; simpl in Eg. 2: discriminate.
+    inversion Eg; subst. apply H0. clear - Eb. induction src as [|x r IH]; simpl in Eb. discriminate.
+    destruct (Nat.eqb (a_uuid x) u). inversion Eb. left. reflexivity. right. apply IH. exact Eb. }
+  simpl. rewrite Hd. rewrite Nat.add_0_r. destruct (cached (after src ops) u); reflexivity.
+Qed.
+
+(* ... and with ONE definition that does (a flow stored below the current spec version), it does: after any other
+   look-up of that flow the child run gets another UUID than from the cold cache *)
+Theorem lazy_migration_draws_refuted :
+  exists draws src ops u ctr, NoDup (map a_uuid src) /\
+    enter_flow draws src (after src ops) u ctr <> enter_flow draws src [] u ctr.
+Proof.
+  exists (fun _ => 2), [{| a_uuid := 7; a_name := 1; a_def := {| d_uuid := 7; d_name := 1; d_body := 0 |} |}], [LGet 7], 7, 100.
+  split.
+  - constructor. intros []. constructor.
+  - vm_compute. discriminate.
+Qed.
